@@ -4,7 +4,8 @@
    rulesets with a variable signature over ONE code-item identifier (kept LAST among the identifiers of the model dataset;
    components are compared by name, so the position is immaterial), rules  Left cmp  ±Item ± Item …  without `when`, the six
    validation modes, input modes rule / rule_priority / dataset, outputs computed / all.
-   `foo` is the reading of the VTL reference manual, `foo_impl` the engine where it was observed to differ.  Definitions only. *)
+   `foo` is the reading of the VTL reference manual, `foo_impl` the engine (equal to `foo` unless stated), `foo_before_fix` the
+   engine before a repair (regression witness).  Definitions only. *)
 From Coq Require Import ZArith QArith String List Bool.
 Import ListNotations.
 From VTL Require Import Base.Val Model.Table Model.Scalar Model.Expr.
@@ -34,8 +35,9 @@ Definition same_names (a b : list string) : bool :=
   Nat.eqb (List.length a) (List.length b) && forallb (fun p => String.eqb (fst p) (snd p)) (combine a b).
 
 (* keep_unmatched = true: a datapoint of the operand without partner in the imbalance operand is kept with a null imbalance
-   (manual: "all the datapoints of op are returned" / "the datapoints for which bool_var is FALSE");
-   keep_unmatched = false: it is dropped (the engine joins operand and imbalance with an inner JOIN) *)
+   (manual: "all the datapoints of op are returned" / "the datapoints for which bool_var is FALSE"; the engine since the repair
+   "check with an imbalance operand dropped datapoints…": LEFT JOIN);
+   keep_unmatched = false: it is dropped (the engine BEFORE that repair joined operand and imbalance with an inner JOIN) *)
 Definition d_check_gen (keep_unmatched : bool) (op : dset) (imb : option dset) (ec el : val) (invalid : bool) : res dset :=
   match d_ms op with
   | [_] =>
@@ -55,14 +57,16 @@ Definition d_check_gen (keep_unmatched : bool) (op : dset) (imb : option dset) (
   end.
 
 Definition d_check := d_check_gen true.
-Definition d_check_impl := d_check_gen false.
+(* the engine: since the repair it follows the manual; the earlier behaviour is kept as a regression witness *)
+Definition d_check_impl := d_check_gen true.
+Definition d_check_before_fix := d_check_gen false.
 
 (* the statement  check(op_expr errorcode ec errorlevel el imbalance imb_expr output)  over dataset expressions *)
-Definition run_check (impl : bool) (e : denv) (opx : dexpr) (imbx : option dexpr) (ec el : val) (invalid : bool) : res dset :=
+Definition run_check (before_fix : bool) (e : denv) (opx : dexpr) (imbx : option dexpr) (ec el : val) (invalid : bool) : res dset :=
   bind (deval e opx) (fun o =>
     match imbx with
-    | None => d_check_gen (negb impl) o None ec el invalid
-    | Some ix => bind (deval e ix) (fun i => d_check_gen (negb impl) o (Some i) ec el invalid)
+    | None => d_check_gen (negb before_fix) o None ec el invalid
+    | Some ix => bind (deval e ix) (fun i => d_check_gen (negb before_fix) o (Some i) ec el invalid)
     end).
 
 (* ================================================================= check_datapoint *)
